@@ -37,6 +37,7 @@ type etherProvider struct {
 	eth  *ether
 	node string
 	ip   net.IP
+	ip6  net.IP
 
 	mu        sync.Mutex
 	cb        api.MdnsResolveCB
@@ -156,7 +157,11 @@ func (p *etherProvider) item(remove bool) etherItem {
 }
 
 func (p *etherProvider) itemLocked(remove bool) etherItem {
-	return etherItem{txt: append([]string(nil), p.txt...), name: p.name, host: p.node + ".local", addrs: []net.IP{p.ip}, port: p.port, remove: remove}
+	addrs := []net.IP{p.ip}
+	if p.ip6 != nil {
+		addrs = []net.IP{p.ip6, p.ip} // IPv6 first: the hub sorts IPv4 to the front
+	}
+	return etherItem{txt: append([]string(nil), p.txt...), name: p.name, host: p.node + ".local", addrs: addrs, port: p.port, remove: remove}
 }
 
 // hideFrom makes the announcements of node `who` invisible to node `viewer`.
@@ -382,6 +387,7 @@ type hubNode struct {
 	rig   *hubRig
 	name  string
 	ip    string
+	ip6   string
 	port  int
 	cert  tls.Certificate
 	ski   string
@@ -408,6 +414,10 @@ type hubRig struct {
 	prodSeq int
 	prod    map[*api.ConnectionStateDetail]int // production order of pairing details
 	connIDs map[any]int
+	// dualStack: every node announces [IPv6, IPv4]; hostUnresolvable: the
+	// announced .local host name does not resolve, the hub falls back to the
+	// addresses (which it sorts IPv4 first)
+	dualStack, hostUnresolvable bool
 	// atRegister, if set, runs at the k-th entry into Hub.registerConnection (on
 	// the registering task): a place for a fault between "connection object
 	// created, pumps running" and "connection registered"
@@ -479,6 +489,23 @@ func nodeOfLabel(l string) string {
 
 func newHubRig(x *Ctx) *hubRig {
 	r := &hubRig{x: x, eth: newEther(x), nodes: map[string]*hubNode{}, prod: map[*api.ConnectionStateDetail]int{}, connIDs: map[any]int{}, provBySKI: map[string]*etherProvider{}}
+	if x.forceDual {
+		r.dualStack, r.hostUnresolvable = true, x.forceHostUnres
+	} else if x.Feat(FeatDualStack) && x.Chance("dual-stack", 0.3) {
+		r.dualStack = true
+		r.hostUnresolvable = x.Chance("host-unresolvable", 0.6)
+	}
+	if r.dualStack && x.Spec.Prop == "C20" {
+		// race check only: the medium repeats all announcements frequently, so that
+		// entries of known services are processed while connection attempts run
+		gap := []time.Duration{20 * time.Millisecond, 100 * time.Millisecond, 700 * time.Millisecond}[x.Choose("mdns-churn-gap", 3)]
+		x.Go("X:churn", func() {
+			for i := 0; i < 300; i++ {
+				simrt.Sleep(gap)
+				r.eth.resync()
+			}
+		})
+	}
 	hook := r.probe
 	simrt.ProbeHook.Store(&hook)
 	x.Net.OnDial = func(from, to, addr string) { x.Ev("dial", from, to, 0) }
@@ -501,7 +528,15 @@ func (r *hubRig) addNode(name string) *hubNode {
 	n.app = &recApp{x: r.x, node: name, rig: r, writers: map[string]api.ShipConnectionDataWriterInterface{}, allowWaiting: true}
 	r.nodes[name] = n
 	r.order = append(r.order, name)
-	r.x.Net.AddHost(name, name+".local", n.ip)
+	if r.dualStack {
+		n.ip6 = fmt.Sprintf("fd00::%d", idx)
+		r.x.Net.AddHost(name, n.ip6)
+	}
+	if r.hostUnresolvable {
+		r.x.Net.AddHost(name, n.ip)
+	} else {
+		r.x.Net.AddHost(name, name+".local", n.ip)
+	}
 	return n
 }
 
@@ -517,18 +552,24 @@ func (n *hubNode) create() {
 			return
 		}
 	}
-	n.cert = c
-	leaf, err := x509.ParseCertificate(c.Certificate[0])
-	if err != nil {
-		n.rig.x.HarnessError("certificate parse: " + err.Error())
-		return
-	}
-	n.ski, err = cert.SkiFromCertificate(leaf)
-	if err != nil {
-		n.rig.x.HarnessError("ski: " + err.Error())
-		return
+	if n.gen == 0 {
+		// certificate and SKI survive a restart: written once
+		n.cert = c
+		leaf, err := x509.ParseCertificate(c.Certificate[0])
+		if err != nil {
+			n.rig.x.HarnessError("certificate parse: " + err.Error())
+			return
+		}
+		n.ski, err = cert.SkiFromCertificate(leaf)
+		if err != nil {
+			n.rig.x.HarnessError("ski: " + err.Error())
+			return
+		}
 	}
 	n.prov = n.rig.eth.provider(n.name, n.ip)
+	if n.ip6 != "" {
+		n.prov.ip6 = net.ParseIP(n.ip6)
+	}
 	n.rig.pmu.Lock()
 	n.rig.provBySKI[n.ski] = n.prov
 	n.rig.pmu.Unlock()
